@@ -31,7 +31,7 @@ VARIABLES def, place, steps, hist
 vars == <<def, place, steps, hist>>
 
 (* place: how/where the definition is written - never part of Canon *)
-Place0 == [file |-> "root", comments |-> 0, blanks |-> 0, unrelated |-> 0, hexid |-> FALSE, imporder |-> 0, proc |-> 0, structbody |-> 0, keyorder |-> 0, noalign |-> 0]
+Place0 == [file |-> "root", comments |-> 0, blanks |-> 0, unrelated |-> 0, hexid |-> FALSE, imporder |-> 0, proc |-> 0, structbody |-> 0, keyorder |-> 0, noalign |-> 0, reuseid |-> 0]
 Canon(d) == <<d.name, d.id, d.fields>>
 
 FieldNames(d) == {d.fields[i][1] : i \in DOMAIN d.fields}
@@ -66,10 +66,11 @@ ReorderImp   == Noise("ReorderImports", [place EXCEPT !.imporder = 1 - @])
 Recompile    == Noise("RecompileOtherProcess", [place EXCEPT !.proc = @ + 1])
 EditStruct   == Noise("EditUsedStruct", [place EXCEPT !.structbody = 1 - @])
 NoAlign      == Noise("AddNoAlignOption", [place EXCEPT !.noalign = 1 - @])    \* compiled with alignment validation / auto padding off
+ReuseId      == Noise("AddReuseIdChange", [place EXCEPT !.reuseid = 1 - @])   \* the id of the message that REUSES the field list is edited (an edit of that other message)
 KeyOrder     == Noise("AddKeyOrder", [place EXCEPT !.keyorder = 1 - @])      \* `fields:` written before `id:` inside the definition
 
 EditStep == Rename \/ ChangeId \/ RenameField \/ RetypeField \/ InsertField \/ DeleteField \/ SwapFields
-NoiseStep == AddComment \/ AddBlank \/ AddUnrelated \/ Move \/ HexId \/ ReorderImp \/ Recompile \/ EditStruct \/ KeyOrder \/ NoAlign
+NoiseStep == AddComment \/ AddBlank \/ AddUnrelated \/ Move \/ HexId \/ ReorderImp \/ Recompile \/ EditStruct \/ KeyOrder \/ NoAlign \/ ReuseId
 Next == EditStep \/ NoiseStep
 
 Init == /\ def \in {[name |-> "MSGA", id |-> 1010, fields |-> fs] :
